@@ -56,10 +56,10 @@ CHECK_DEADLOCK FALSE
 TIERS = {
     'quick': dict(layout=dict(budget=3, maxbody=5, maxdepth=3, units='"s4", "s2", "t1"',
                               strkinds='"plain", "raw", "bytes", "f"'),
-                  lam=dict(maxl=2, sigs3='"x"'), tlc_workers=4, procs=8),
+                  lam=dict(maxl=2, sigs3='"x"'), tlc_workers=3, procs=6),
     'thorough': dict(layout=dict(budget=4, maxbody=5, maxdepth=3, units='"s4", "s2", "t1", "t2"',
                                  strkinds='"plain", "raw", "bytes", "f", "rb"'),
-                     lam=dict(maxl=3, sigs3='"x", "y", "po", "xd"'), tlc_workers=8, procs=12),
+                     lam=dict(maxl=3, sigs3='"x", "y", "po", "xd"'), tlc_workers=4, procs=8),
 }
 # every line kind / attribute the specification can write must occur in the enumeration (vacuity)
 NEED_KINDS = {'ctx', 'deco', 'decoopen', 'decoarg', 'def1', 'defone', 'defopen', 'sigmid', 'sigclose', 'defbs',
